@@ -39,7 +39,7 @@ REQUIRED = ["util:CachedFcn.__call__", "util:UserFcn.__call__", "util:named", "u
 
 
 def plan(tier):
-    return 4000 if tier == "quick" else 100000
+    return 8000 if tier == "quick" else 100000
 
 
 def budget(tier):
